@@ -308,7 +308,8 @@ def check(run, prog, tier):
         sjb = sj[0][0]
         heads = [bid for bid in f.reachable() if any(f.dominates(bid, p) for p in f.blocks[bid].preds) and f.dominates(sjb.id, bid)]
         outer = [h for h in heads if all(f.dominates(h, o) for o in heads)]
-        head = outer[0] if outer else (heads[0] if heads else None)
+        # several loops one after the other (a spliced helper may bring its own): the main loop is the largest one
+        head = outer[0] if outer else (max(heads, key=lambda h: sum(1 for x in f.reachable() if f.dominates(h, x) and h in cfgq.reach_set(f, [x]))) if heads else None)
         region = cfgq.reach_set(f, sjb.live_succ(), avoid_blocks=[head] if head is not None else [])
         for j, (b, i, n) in enumerate(rounds):
             if b.id not in region:
